@@ -233,4 +233,39 @@ def groupStore (cs : List HCell) (d : Nat) (hd : Handle) : List HCell :=
   | some c => cs.set d { c with data := hd.cache }
   | none => cs
 
+/-- the match as its `TraverserMatch` objects cache it *now*: the data of the match and of its
+`.parent` chain taken from the cells (an imaginary match keeps its own cache; the match it
+shadows is given the same data — only its ancestors are reachable from here) -/
+def MNode.withCells : MNode Val → List HCell → MNode Val
+  | .root _, c :: _ => .root c.data
+  | .child p nm _, c :: cs => .child (p.withCells cs) nm c.data
+  | .imag p, c :: cs => .imag (p.withCells ({ c with name := p.dataName } :: cs))
+  | .par r f, c :: cs => .par (r.withCells [c]) (f.withCells cs)
+  | n, [] => n
+
+/-- `m.parent`, `d` times -/
+def MNode.ancestor : MNode Val → Nat → Option (MNode Val)
+  | n, 0 => some n
+  | n, d+1 => n.parent.bind (·.ancestor d)
+
+/-! ### cells shared between matches
+
+The result of a search started from a `Match` hangs below that Match's own `TraverserMatch`
+objects: from the nested root upward the two chains are the *same* objects.  Cells therefore
+live in one array, and a `Match` is the list of the cell numbers along its `.parent` chain. -/
+
+def chainCells (cells : Array HCell) (ids : List Nat) : List HCell := ids.filterMap (cells[·]?)
+
+def groupHandleH (cells : Array HCell) (ids : List Nat) (d : Nat) : Option Handle :=
+  groupHandle (chainCells cells ids) d
+
+def groupStoreH (cells : Array HCell) (ids : List Nat) (d : Nat) (hd : Handle) : Array HCell :=
+  match ids[d]? with
+  | some i => cells.modify i fun c => { c with data := hd.cache }
+  | none => cells
+
+/-- allocate the cells of a fresh result -/
+def allocCells (cells : Array HCell) (cs : List HCell) : Array HCell × List Nat :=
+  (cells ++ cs.toArray, (List.range cs.length).map (· + cells.size))
+
 end Treepath
